@@ -313,3 +313,10 @@ Definition node_step (n : node) (ev : nevent) : node :=
   | NTick now => mkN (n_known n) (fst (ep_tick (n_ep n) now))
   end.
 Definition node_run (n : node) (evs : list nevent) : node := fold_left node_step evs n.
+
+(* the peer's advertised Receive Window Size applied at establishment (fixes/C16_peer_rws.patch,
+   applyPeerReceiveWindow: AVP value, 4 when the AVP is absent, SetPeerWindow clamps to >= 1) *)
+Definition advertised (adv : option Z) : Z := match adv with Some w => w | None => 4 end.
+Definition apply_peer_window (e : endpoint) (adv : option Z) : endpoint :=
+  let c' := set_peer_window (e_ch e) (advertised adv) in
+  mkE (e_f e) c' (e_sent e) (e_sub e) (e_del e) (e_acked e) (e_dead e) (c_pw c').
